@@ -13,6 +13,12 @@ import sys
 
 seed = os.path.abspath(sys.argv[1])
 props = sys.argv[2:]
+# --verif-rev=<git rev>: run the checks of that committed state of /verif (how the check stood then)
+VREV = None
+for a in list(props):
+    if a.startswith("--verif-rev="):
+        VREV = a.split("=", 1)[1]
+        props.remove(a)
 tag = seed.strip("/").replace("/", "_")
 base = f"/tmp/mt/{tag}"
 shutil.rmtree(base, ignore_errors=True)
@@ -48,7 +54,14 @@ try:
         res["patch_applies"] = rc == 0
     # scratch copy of /verif with the harness pointed at the mutated worktree
     vc = f"{base}/verif"
-    sh(f"rsync -a --exclude work --exclude replay --exclude .git /verif/ {vc}/")
+    if VREV:
+        os.makedirs(vc)
+        sh(f"git -C /verif archive {VREV} | tar -x -C {vc}")
+        # the Lean build output of the current tree is reused where the sources are unchanged
+        sh(f"rsync -a /verif/lean/.lake {vc}/lean/")
+        res["verif_rev"] = VREV
+    else:
+        sh(f"rsync -a --exclude work --exclude replay --exclude .git /verif/ {vc}/")
     ct = open(f"{vc}/harness/Cargo.toml").read().replace('path = "/repo"', f'path = "{wt}"')
     open(f"{vc}/harness/Cargo.toml", "w").write(ct)
     res["checks"] = {}
